@@ -47,6 +47,8 @@ class World:
         self.parser = parser or boot.fresh_parser(self.cache)
         self.host = Host()
         self.host.thread_hop = bool(cfg.get('thread_hop'))
+        self.host.reentry = list(cfg.get('reentry') or ())
+        self.host.parser = self.parser
         fns = list(cfg.get('host_fns', ()))
         self.names = wrap_names(build_names(cfg.get('names', {})), cfg.get('names_kind'))
         if fns:
@@ -56,6 +58,7 @@ class World:
             mnames = build_names(cfg.get('names', {}))
             self.model = Model(mnames, host_fns=fns,
                                builtin_names=list(monitors.M.orig_functions) if monitors.M.installed else None)
+            self.model.reentry = list(cfg.get('reentry') or ())
 
     def eval_and_judge(self, ctx, op, step, budget=60000, check_names=True, rec=None, names=None, mnames=None):
         """Run one eval op on the real system and the model; compare. Returns (judged, rout, mout)."""
@@ -86,11 +89,58 @@ class World:
         return canon.cdigest(self.names, monitors.M.fn_names)
 
 
+SCAN_TEXTS = ['total(items[idx], (a + b', 'f(a, [b, {c: (d', 'x[1', 'g((((y', 'price * qty', 'a = [b, c]\nlen(a)', '{"k": [y, (z', 'm(n(o(p', 'u[v[w']
+BAD_TEXTS = ['rand([1, 2', 'f(1 6)', 'shuffle([1, 2, 3)', '{"a": [1, (2', 'x = (', 'a + $ (', '[1, 2', 'g(h(', 'd["k"', 'x = [1, 2)\ny', 'for (', '(1 +\n', '{1: [2, (3']
+
+
+def noise_op(r):
+    """Something that happens on the same parser BETWEEN two judged calls and must leave no trace: a name listing that is
+    abandoned midway (kept alive by the host, possibly inside open brackets), one that is requested but not read yet, a
+    text that fails to parse or lex with brackets open. None of it is judged itself."""
+    k = r.choice(['gen_abandon', 'gen_abandon', 'gen_defer', 'gen_consume', 'bad_parse', 'bad_parse', 'bad_eval', 'gen_drop'])
+    op = {'op': 'noise', 'kind': k}
+    if k in ('gen_abandon', 'gen_defer'):
+        op['src'] = r.choice(SCAN_TEXTS)
+        op['consume'] = r.randint(1, 3)
+    elif k in ('bad_parse', 'bad_eval'):
+        op['src'] = r.choice(BAD_TEXTS)
+    return op
+
+
+def do_noise(parser, op, state, ctx=None):
+    """state: a dict owned by the caller (keeps the generators alive across calls)."""
+    k = op['kind']
+    try:
+        if k == 'gen_abandon':
+            it = iter(parser.list_names(op['src']))
+            for _ in range(op['consume']):
+                next(it, None)
+            state.setdefault('suspended', []).append(it)
+        elif k == 'gen_defer':
+            state.setdefault('deferred', []).append(parser.list_names(op['src']))      # requested, not started
+        elif k == 'gen_consume':
+            for g in state.pop('deferred', []):
+                list(g)
+        elif k == 'gen_drop':
+            if state.get('suspended'):
+                state['suspended'].pop(0).close()
+        elif k == 'bad_parse':
+            parser.parse(op['src'])
+        elif k == 'bad_eval':
+            parser.eval(op['src'], {})
+    except Exception:
+        pass
+    if ctx is not None:
+        ctx.fault('noise_' + k)
+
+
 def model_only(cfg):
     """World with only the model side, for model-state-aware generation."""
     fns = list(cfg.get('host_fns', ()))
     mnames = build_names(cfg.get('names', {}))
-    return Model(mnames, host_fns=fns, builtin_names=None)
+    m = Model(mnames, host_fns=fns, builtin_names=None)
+    m.reentry = list(cfg.get('reentry') or ())
+    return m
 
 
 def strings_too_big(names, limit=3000):
